@@ -20,6 +20,7 @@ func init() {
 			"alphabet strings: every string up to 5 (quick) / 6 (thorough) bytes over an 8-symbol alphabet per codec (start-code bytes, NAL / OBU / VP9 frame header octets) for every MTU 0..12; structured corpus per codec (30-60 inputs from the reference writers: NAL sequences with 3/4-byte start codes, leading garbage, no start code, OBU streams with forbidden bit / truncated LEB128 / oversize field, valid and invalid VP9 headers and every truncation of the headers of all four profiles (key and intra-only frames), lengths around the MTU) for EVERY MTU 0..40 and {63,64,65,127,128,129,255,256,1200,65535}",
 			"histories: all sequences of up to 3 inputs from a 14-20 input sub-corpus per codec over 12 MTUs; pairs over the full corpus",
 			"long histories: all sequences of 6 calls over 4 inputs per codec; large inputs (5000, 66000 and 140000 bytes, i.e. beyond 16-bit lengths and more than 256 / 65536 fragments; SPS+PPS of 65531 bytes; 300 small NAL units / OBUs in one call; OBUs of 16383/16384 bytes followed by a small one) for MTU {2,3,5,12,100,1200,20000,65535}",
+			"AV1 elements behind the third of a packet carry a LEB128 length whose own size depends on the value: 3 or 4 small OBUs followed by a large one (free space - 3 .. + 3 bytes, 2 and 3 MTUs), last or followed by another small OBU, for every MTU 17..300 and 16370..16420 (thorough: also 2097150..2097190), so that the space left for the length-prefixed element takes every value around the 1/2-, 2/3- and 3/4-byte boundaries of the length field",
 			"returning no fragment (MTU too small, unparsable input) is allowed; Opus ignores the MTU by design",
 		},
 		Scenarios: []mc.Scenario{
@@ -28,6 +29,7 @@ func init() {
 			{Name: "call-histories", Tiers: "qt", ShardDepth: 3, Run: c08Histories},
 			{Name: "long-histories-and-large-inputs", Tiers: "qt", ShardDepth: 3, Run: c08Long},
 			{Name: "steady-streams-of-equal-sized-inputs", Tiers: "qt", ShardDepth: 3, Run: c08Steady},
+			{Name: "av1-length-prefixed-element-every-free-space", Tiers: "qt", ShardDepth: 2, Run: c08AV1Prefixed},
 		},
 	})
 }
@@ -506,4 +508,48 @@ func c08Steady(c *mc.Ctx) {
 		c.NonTrivial()
 	}
 	c.Outcome(fmt.Sprintf("%s steady frags/call=%d", cfg.name, minI(returned/calls, 4)))
+}
+
+// c08AV1Prefixed: a packet's fourth and later elements are length-prefixed, and the size of the
+// prefix depends on the length it announces; the space left behind k small elements is taken
+// through every value around the boundaries of the LEB128 length.
+func c08AV1Prefixed(c *mc.Ctx) {
+	var cfg c08Config
+	for _, x := range c08Configs {
+		if x.family == "av1" {
+			cfg = x
+		}
+	}
+	nm := 284 + 51
+	if c.Thorough() {
+		nm += 41
+	}
+	mi := c.Pick(nm)
+	mtu := 17 + mi
+	if mi >= 284 {
+		mtu = 16370 + mi - 284
+	}
+	if mi >= 284+51 {
+		mtu = 2097150 + mi - 284 - 51
+	}
+	k := 3 + c.Pick(2)
+	free := mtu - 1 - 5*k
+	sizes := []int{free - 3, free - 2, free - 1, free, free + 1, free + 2, free + 3, 2 * mtu, 3*mtu + 7}
+	n := mc.From(c, sizes)
+	last := c.Bool()
+	if n < 1 {
+		return
+	}
+	var obus []ref.OBU
+	for i := 0; i < k; i++ {
+		obus = append(obus, ref.OBU{Type: 6, Payload: fill(3, byte(i))})
+	}
+	obus = append(obus, ref.OBU{Type: 6, Payload: fill(n-1, 7)}) // n bytes with its header
+	if !last {
+		obus = append(obus, ref.OBU{Type: 6, Payload: fill(2, 9)})
+	}
+	if c.Verbose() {
+		c.Notef("AV1 mtu=%d: %d OBUs of 4 bytes, one of %d bytes (space left %d), last=%v", mtu, k, n, free, last)
+	}
+	c08Run(c, cfg, mtu, [][]byte{ref.AV1Stream(obus, last)})
 }
